@@ -464,7 +464,15 @@ pub fn project(resp: &Value) -> Value {
     let err = resp.get("error").map(|e| e.to_string());
     let route = match resp.get("route") {
         None | Some(Value::Null) => Value::Null,
-        Some(Value::Array(a)) => Value::Array(a.iter().map(project_route).collect()),
+        Some(Value::Array(a)) => {
+            // alternatives after the first are returned in an order that depends on hash-map iteration when
+            // their queue priorities tie (e.g. floored costs): compare them as a multiset
+            let mut v: Vec<Value> = a.iter().map(project_route).collect();
+            if v.len() > 2 {
+                v[1..].sort_by_key(|x| x.to_string());
+            }
+            Value::Array(v)
+        }
         Some(o) => project_route(o),
     };
     json!({"error": err, "route": route})
